@@ -21,7 +21,7 @@ RULE = (
     "by the reference model (dense numpy completion). Non-trivial = nnz>=2 and at least one of: >=2 non-empty "
     "chunks, a diagonal and an off-diagonal pixel, a non-fixed layout, an extra value column, a non-default "
     "dtype or filter. Distinct by sha1 of the canonical case."
-    ' Also: input frames whose row labels are not a fresh RangeIndex (reversed, permuted, gappy, strings); optional input checks switched off in any combination on valid input; arguments equal to documented defaults left out; a CLI part in which metadata (JSON file incl. exponent-form floats) and assembly are given through `cooler load` / `cooler cload pairs --metadata --assembly`; histories in which the same URI first holds, and is read as, a twin collection (same bin table and pixel count, pixels on other rows).'
+    ' Also: input frames whose row labels are not a fresh RangeIndex (reversed, permuted, gappy, strings); optional input checks switched off in any combination on valid input; arguments equal to documented defaults left out; a CLI part in which metadata (JSON file incl. exponent-form floats) and assembly are given through `cooler load` / `cooler cload pairs --metadata --assembly`; bin id columns of the input in any integer type that holds them (int16..uint64), also on tall tables (more than 185 bins, few pixels); one table grouped by bin1_id with bin2_id in arbitrary order inside the groups; histories in which the same URI first holds, and is read as, a twin collection (same bin table and pixel count, pixels on other rows).'
 )
 ASSUMPTIONS = [
     "pixel input is sorted by (bin1_id, bin2_id) and upper-triangular in symmetric mode, as create_cooler documents for ordered input",
@@ -50,8 +50,13 @@ def _is_json_literal(s):
 
 
 @st.composite
-def cases(draw, max_chroms=4, max_bins=6):
+def cases(draw, max_chroms=4, max_bins=6, max_nnz=None, min_total_bins=0):
     bt = draw(gen.bin_tables(max_chroms=max_chroms, max_bins=max_bins, allow_space=True))
+    if min_total_bins:
+        # tall tables: one more chromosome of fixed width brings the bin count beyond the given bound
+        extra_bins = min_total_bins + draw(st.integers(0, 60))
+        bt = {"names": [*bt["names"], "tall_one"], "edges": [*bt["edges"], [5 * k for k in range(extra_bins + 1)]],
+              "kinds": [*bt["kinds"], "variable"], "b": bt.get("b")}
     n = gen.n_bins(bt)
     symmetric = draw(st.booleans())
     colset = draw(st.sampled_from([["count"], ["count"], ["count", "x"], ["count", "x", "y"], ["x"]]))
@@ -60,16 +65,16 @@ def cases(draw, max_chroms=4, max_bins=6):
     y_dt = draw(st.sampled_from(["float64", "int16"]))
     explicit = draw(st.booleans())
     form = draw(st.sampled_from(["frame", "frame-shuffled", "dict", "chunks-frame", "chunks-dict",
-                                 "chunks-frame", "arrayloader", "chunks-ensure-sorted", "dask", "chunks-default"]))
+                                 "chunks-frame", "arrayloader", "chunks-ensure-sorted", "dask", "chunks-default", "frame-rows-shuffled"]))
     if form == "arrayloader":
         symmetric, colset, count_dt = True, ["count"], draw(st.sampled_from(["int32", "int64"]))
-        rows = draw(gen.pixels(n, True, count=st.integers(1, 1000)))
+        rows = draw(gen.pixels(n, True, count=st.integers(1, 1000), max_nnz=max_nnz))
         rows = [[r[0], r[1], r[2], 0, 0] for r in rows]
     else:
         rows = draw(gen.pixels(
             n, symmetric,
             extra_cols=[VALUE_KINDS[x_dt], VALUE_KINDS[y_dt]],
-            count=gen.DYADIC64 if count_dt == "float64" else gen.COUNT_VALUES))
+            count=gen.DYADIC64 if count_dt == "float64" else gen.COUNT_VALUES, max_nnz=max_nnz))
     dtypes = {}
     if explicit or count_dt != "int32":
         dtypes["count"] = count_dt
@@ -83,7 +88,9 @@ def cases(draw, max_chroms=4, max_bins=6):
         "dtypes": dtypes, "eff": {c: eff[c] for c in colset}, "form": form,
         "cuts": draw(gen.cuts(len(rows), 8)) if form.startswith("chunks") or form == "dask" else [],
         "chunksize": draw(st.integers(1, n + 1)) if form == "arrayloader" else None,
-        "perm_seed": draw(st.integers(0, 2**16)) if form in ("frame-shuffled", "chunks-ensure-sorted") else None,
+        "perm_seed": draw(st.integers(0, 2**16)) if form in ("frame-shuffled", "chunks-ensure-sorted", "frame-rows-shuffled") else None,
+        # dtype of the bin id columns of the input (ids are small non-negative integers: any integer type that holds them is valid)
+        "id_dtype": draw(st.sampled_from(["int64", "int64", "int32", "int16", "uint16", "uint32", "uint64"])),
         "shuffle": draw(st.sampled_from(["within-rows", "full"])) if form == "chunks-ensure-sorted" else None,
         "junk": draw(st.booleans()),
         # row labels of the input frame(s): a fresh RangeIndex, or what earlier pandas operations leave behind
@@ -145,6 +152,9 @@ def build_input(case):
         df = pixel_frame(rs, allcols, in_dtypes)
         if case["junk"]:
             df["junk"] = np.arange(len(df)) * 3 + 1
+        if case.get("id_dtype", "int64") != "int64":
+            df["bin1_id"] = df["bin1_id"].astype(case["id_dtype"])
+            df["bin2_id"] = df["bin2_id"].astype(case["id_dtype"])
         ik = case.get("index_kind", "range")
         m_ = len(df)
         if ik == "reversed":
@@ -172,6 +182,13 @@ def build_input(case):
         df = frame(rows)
         rng = np.random.RandomState(case["perm_seed"])
         df = df.iloc[rng.permutation(len(df))]
+        return df if case.get("index_kind", "range") != "range" else df.reset_index(drop=True)
+    if form == "frame-rows-shuffled":
+        # one table whose rows are grouped by bin1_id in increasing order, with bin2_id in arbitrary order inside each group
+        rng = np.random.RandomState(case["perm_seed"])
+        keys = rng.rand(len(rows)).tolist()
+        rs = [r for _, r in sorted(zip([(r[0], k) for r, k in zip(rows, keys)], rows), key=lambda t: t[0])]
+        df = frame(rs)
         return df if case.get("index_kind", "range") != "range" else df.reset_index(drop=True)
     if form == "dict":
         df = frame(rows)
@@ -341,7 +358,7 @@ def check_roundtrip(case, ctx: Ctx):
     nt = len(rows) >= 2 and (nonempty_chunks >= 2 or (diag and off) or set(bt["kinds"]) - {"fixed"}
                              or len(cols) > 1 or bool(case["dtypes"]) or case["h5opts"] is not None)
     ctx.record(case, bool(nt), [
-        "form=" + case["form"], "checks-off=" + ("+".join(case.get("checks_off", [])) or "none"), "index=" + case.get("index_kind", "range"), "sym" if symmetric else "square", "cols=" + "+".join(cols),
+        "form=" + case["form"], "ids=" + case.get("id_dtype", "int64"), "checks-off=" + ("+".join(case.get("checks_off", [])) or "none"), "index=" + case.get("index_kind", "range"), "sym" if symmetric else "square", "cols=" + "+".join(cols),
         "dest=" + (case["dest"] or "file"), "empty" if not rows else "nonempty",
         "chunks>=2" if nonempty_chunks >= 2 else "chunks<2",
         "emptychunk" if case["form"].startswith("chunks") and any(not c for c in gen.split_at(rows, case["cuts"])) else "no-emptychunk",
@@ -448,7 +465,9 @@ def replay(ctx: Ctx, case):
 def run(ctx: Ctx):
     q = ctx.tier == "quick"
     parts = [given_part(ctx, "cli-meta", cli_meta_cases(), check_cli_meta, per_shard(ctx, 160 if q else 4000), batch=20 if q else 50),
-             given_part(ctx, "roundtrip", cases(4, 6), check_roundtrip, per_shard(ctx, 4400 if q else 90000), batch=100 if q else 200)]
+             given_part(ctx, "roundtrip", cases(4, 6), check_roundtrip, per_shard(ctx, 4000 if q else 90000), batch=100 if q else 200),
+             # more than 2**7.5 (and 2**8) bins, few pixels: products of two bin ids no longer fit the narrow id types
+             given_part(ctx, "roundtrip-tall", cases(2, 4, max_nnz=40, min_total_bins=185), check_roundtrip, per_shard(ctx, 240 if q else 8000), batch=15)]
     if not q:
         parts.append(given_part(ctx, "roundtrip-large", cases(8, 8), check_roundtrip, per_shard(ctx, 40000), batch=200))
     run_parts(ctx, parts)
